@@ -145,4 +145,18 @@ CONTRACTS.update({
             ]},
         ],
     ),
+    GN + "GraphNode.map_outputs_from_original": dict(
+        props=["C05", "C06"],
+        params={"self": OBJ("GraphNode"), "outputs": DICT(STR, ANY)},
+        returns=DICT(STR, ANY),
+        imports=BRM,
+        # object-model facts about a wrapper: different current output names stand for different inner names, and the inner
+        # run produced only (selected) outputs of the inner graph, i.e. originals of current names
+        requires=["all(a == b or build_reverse_rename_map(self._rename_history, 'outputs').get(a, a) != build_reverse_rename_map(self._rename_history, 'outputs').get(b, b) for a in self.outputs for b in self.outputs)",
+                  "all(any(build_reverse_rename_map(self._rename_history, 'outputs').get(n, n) == k for n in self.outputs) for k in outputs)"],
+        # results appear under the CURRENT output names: the value the inner graph produced under the original name of n
+        ensures=["all(build_reverse_rename_map(self._rename_history, 'outputs').get(n, n) not in outputs or (n in result and result[n] is outputs[build_reverse_rename_map(self._rename_history, 'outputs').get(n, n)]) for n in self.outputs)"],
+        modifies=[],
+        call_site="opaque",  # callers (the graph-node executors) keep the declared pure method of the object model
+    ),
 })
